@@ -25,6 +25,9 @@ Line protocol (one program per line):
   gl <ops> <init id> <sweep outcome ids>                            legacy Gibbs storage
   glf <ops> <init id> <sweep outcome ids>                           legacy Gibbs.sample(Ns, Nb) in full; ops s<Ns>b<Nb>;
       one output per op: C=<returned chain>;W=<samples_warmup> or errI (IndexError) / errV (ValueError; object unchanged)
+  hgr <blocks> <ops> <stream>                                       HybridGibbs on library block samplers: `replaySpec` blocks whose transition
+      outcomes (point id, acceptance) are read off the stream; blocks: <x0 id>|<nuts 0|1>|<num_sampling_steps>; ops as hgt;
+      snapshot C=<current ids>;S=<rows>;T=<tune calls>;B=<per block: number of acceptance records/point id>
   hgt <blocks> <ops> <stream>                                       HybridGibbs on `toyBlockSpec` blocks (Model/C14_gibbs.lean)
       blocks (`;`-separated): <x0 a:b:c | N<dim>>|<scale>|<nuts 0|1>|<num_sampling_steps | d>|<already initialised 0|1>
       ops: s<n> | w<n>@<tune_freq> | get   (snapshot C=<current_samples>;S=<stored rows>;T=<tune calls>;B=<per block acc/point/scale/eps_bar/shift/initialised>;R=<stream left>)
@@ -279,6 +282,46 @@ def gibbsLegacyFullOps (ops : List String) (init : Int) (stream : List Int) : Op
       else none
   go ops { samples := none, warm := none, stream := stream } []
 
+def hgReplayOps (cfgs : List (Int × Bool × Nat)) (ops : List String) (stream : List Int) : Option String :=
+  let bs : List (Block Int Int) := cfgs.map (fun c => { spec := replaySpec, nutsLike := c.2.1, nsteps := c.2.2, dim := 1 })
+  let rs : List (Run Int Int) := cfgs.map (fun c => Run.fresh (Obj.empty.set "initial_point" (.int c.1)) [])
+  let snap (st : HGS Int Int × List (List Val) × List Int × List (Nat × Nat × Nat)) : String :=
+    "C=" ++ "|".intercalate (st.1.cur.map fmtVal) ++
+    ";S=" ++ commaJoin (st.2.1.map (fun row => "|".intercalate (row.map fmtVal))) ++
+    ";T=" ++ commaJoin (st.2.2.2.map (fun t => s!"{t.1}/{t.2.1}/{t.2.2}")) ++
+    ";B=" ++ commaJoin (st.1.runs.map (fun r => toString r.acc.length ++ "/" ++ fmtVal (point r.obj)))
+  match hgInit bs rs with
+  | none => some "err:init"
+  | some s0 =>
+    let rec go (ops : List String) (st : HGS Int Int × List (List Val) × List Int × List (Nat × Nat × Nat)) (out : List String) : Option String :=
+      match ops with
+      | [] => some (if out.isEmpty then "_" else "#".intercalate out)
+      | op :: rest =>
+        if op = "get" then go rest st (out ++ [snap st])
+        else if op.startsWith "s" then
+          match (op.drop 1).toString.toNat? with
+          | some n =>
+            let r := hgSample bs n (st.1, st.2.1, st.2.2.1)
+            go rest (r.1, r.2.1, r.2.2, st.2.2.2) out
+          | none => none
+        else if op.startsWith "w" then
+          match (op.drop 1).toString.splitOn "@" with
+          | [n, tf] =>
+            match n.toNat?, parseRat tf with
+            | some n, some tf => go rest (hgWarmup bs n tf st) out
+            | _, _ => none
+          | _ => none
+        else none
+    go ops (s0, [], stream, []) []
+
+def parseReplayBlock (s : String) : Option (Int × Bool × Nat) :=
+  match s.splitOn "|" with
+  | [x0, nuts, ns] =>
+    match x0.toInt?, ns.toNat? with
+    | some x, some n => if nuts = "0" || nuts = "1" then some (x, nuts = "1", n) else none
+    | _, _ => none
+  | _ => none
+
 def step : List String → String
   | ["exp", kind, x0, scale, ops, stream] =>
     let opl := ops.splitOn ";"
@@ -325,6 +368,10 @@ def step : List String → String
   | ["glf", ops, init, stream] =>
     match init.toInt?, parseInts "," stream with
     | some i, some ds => (gibbsLegacyFullOps (ops.splitOn ";") i ds).getD "bad-op"
+    | _, _ => "bad-op"
+  | ["hgr", blocks, ops, stream] =>
+    match (blocks.splitOn ";").mapM parseReplayBlock, parseInts "," stream with
+    | some cfgs, some ds => if cfgs.isEmpty then "bad-op" else (hgReplayOps cfgs (ops.splitOn ";") ds).getD "bad-op"
     | _, _ => "bad-op"
   | ["hgt", blocks, ops, stream] =>
     match (blocks.splitOn ";").mapM parseHgBlock, parseInts "," stream with
